@@ -326,6 +326,71 @@ example : readLine 3 ⟨[97, 98, 13, 10, 99, 100], false⟩ = (([97, 98], true),
 example : lines 2 [97, 98, 13, 10, 99, 100] = [[97, 98], [99, 100]] := by
   rw [lines_spec 2 (by decide) _ (by unfold Spec.NulFree; decide)]; decide
 
+/-! ## the loop driven by the result of `readLine(String&)` -/
+
+/-- `mapInit f` = `f` on every element but the last, the last unchanged -/
+theorem mapInit_eq {α : Type} (f : α → α) (l : List α) (h : l ≠ []) :
+    Spec.mapInit f l = l.dropLast.map f ++ [l.getLast h] := by
+  induction l with
+  | nil => exact absurd rfl h
+  | cons x t ih =>
+    cases t with
+    | nil => simp [Spec.mapInit]
+    | cons y t' =>
+      simp only [Spec.mapInit, List.dropLast_cons_cons, List.map_cons, List.cons_append]
+      rw [ih (by simp)]
+      simp
+
+/-- **readLine_while_spec** (`while (f.readLine(s)) out << s;`, the loop driven by the `bool` result, on a stream at any
+    position whose remaining bytes are NUL-free, any chunk size ≥ 2): the strings delivered with `true`, followed by the
+    string the final `false` call leaves in `s`, are exactly the lines of the remaining text — nothing is lost, nothing
+    invented — and the stream is left at its end with the end-of-file indicator set (`end()` is true). -/
+theorem readLine_while_spec (chunk : Nat) (_h : 2 ≤ chunk) (content : Bytes) (e : Bool) (hz : Spec.NulFree content) :
+    (readWhile chunk ⟨content, e⟩).1.1 ++ [(readWhile chunk ⟨content, e⟩).1.2] = Spec.lines content ∧
+    (readWhile chunk ⟨content, e⟩).2 = ⟨[], true⟩ := by
+  have h := readWhileLoop_eq (chunk - 2) ⟨content, e⟩ [] hz
+  have hl : linesRef [] content = Spec.lines content := by
+    rw [← lines_eq 2 content hz]; exact lines_spec 2 (by decide) content hz
+  unfold readWhile
+  refine ⟨?_, h.2⟩
+  rw [h.1, ← hl]; simp
+
+/-- **readLine_while_terminated**: what that loop delivers with `true` is exactly the sequence of LF-terminated lines
+    (every piece that is followed by an LF, without one CR before it),
+    and the string left by the final `false` call is the unterminated tail (the bytes after the last LF, CR kept;
+    empty when the text ends in LF or is empty).  A caller that ignores `s` after `false` loses exactly that tail. -/
+theorem readLine_while_terminated (chunk : Nat) (_h : 2 ≤ chunk) (content : Bytes) (e : Bool) (hz : Spec.NulFree content) :
+    (readWhile chunk ⟨content, e⟩).1.1 = (Spec.splitLF content).dropLast.map Spec.stripCR ∧
+    (readWhile chunk ⟨content, e⟩).1.2 = (Spec.splitLF content).getLast (splitLF_ne_nil content) := by
+  have h := (readLine_while_spec chunk _h content e hz).1
+  unfold Spec.lines at h
+  rw [mapInit_eq _ _ (splitLF_ne_nil content)] at h
+  have := List.append_inj' h (by simp)
+  exact ⟨this.1, by simpa using this.2⟩
+
+/-- **readLine_while_of_file**: a `TextFile` opened for reading on a path that holds the NUL-free bytes `c`, then
+    `while (f.readLine(s)) out << s;`: `out` followed by the final `s` is the lines of `c`, and `end()` is true. -/
+theorem readLine_while_of_file (d : Disk) (p : Nat) (c : Bytes) (hc : d p = some c) (hz : Spec.NulFree c) :
+    ∃ h, openH d p true .read = (some h, d) ∧
+      (hreadWhile readLineChunk h).1.1 ++ [(hreadWhile readLineChunk h).1.2] = Spec.lines c ∧
+      hend (hreadWhile readLineChunk h).2 = true := by
+  refine ⟨_, openH_read d p true c hc, ?_⟩
+  have hs := readLine_while_spec readLineChunk (by decide) c false hz
+  simp only [hreadWhile, smRead, if_true]
+  exact ⟨hs.1, by simp [hend, hs.2]⟩
+
+-- not vacuous: "a\r\n\r\nb\r" with a 3-byte chunk: two terminated lines, the tail keeps its CR; "a\n": empty tail
+example : readWhile 3 ⟨[97, 13, 10, 13, 10, 98, 13], false⟩ = (([[97], []], [98, 13]), ⟨[], true⟩) := by
+  have h := readLine_while_terminated 3 (by decide) [97, 13, 10, 13, 10, 98, 13] false (by unfold Spec.NulFree; decide)
+  have h2 := (readLine_while_spec 3 (by decide) [97, 13, 10, 13, 10, 98, 13] false (by unfold Spec.NulFree; decide)).2
+  have e1 : (Spec.splitLF [97, 13, 10, 13, 10, 98, 13]).dropLast.map Spec.stripCR = [[97], []] := by decide
+  have e2 : (Spec.splitLF [97, 13, 10, 13, 10, 98, 13]).getLast (splitLF_ne_nil _) = [98, 13] := by decide
+  rw [e1, e2] at h
+  exact Prod.ext (Prod.ext h.1 h.2) h2
+example : (readWhile 255 ⟨[97, 10], false⟩).1 = ([[97]], []) := by
+  have h := readLine_while_terminated 255 (by decide) [97, 10] false (by unfold Spec.NulFree; decide)
+  exact Prod.ext (h.1.trans (by decide)) (h.2.trans (by decide))
+
 /-! ## Directory::copy block loop -/
 
 /-- **copy_exact**: the block loop writes exactly the source bytes, for every size and every block size ≥ 1
@@ -1075,6 +1140,39 @@ theorem obj_lazy_write_query_close (d : Disk) (p : Nat) (m : OpenMode) (hm : m =
     exact this
 
 /-! ## end to end: written, then read -/
+
+/-! ## an open that fails still records the path -/
+
+/-- **failed_open_keeps_path**: after `open(p, m)` (also the constructors `File(p, m)` / `TextFile(p, m)`) the object refers
+    to `p` whether or not the open succeeded, whatever it referred to before, open or not -/
+theorem failed_open_keeps_path (d : Disk) (o : Obj) (p : Nat) (m : OpenMode) : (o.openAt d p m).2.2.path = p := by
+  simp only [Obj.openAt]
+
+/-- **failed_open_is_fresh**: `open(p, READ)` on a path that does not exist, through a closed object of any other path
+    `q` that has cached nothing (e.g. the constructor `TextFile(p, READ)`): it fails, the disk is unchanged, and the
+    object is exactly a path-only object of `p` — so everything proved about `Obj.new p t` (`twrite_lazy`, `put_lazy`,
+    `obj_lazy_write_query_close`: the lazy writers create `p` and write there) holds for it. -/
+theorem failed_open_is_fresh (d : Disk) (p q : Nat) (t : Bool) (hp : d p = none) :
+    (Obj.new q t).openAt d p .read = (false, d, Obj.new p t) := by
+  have h := openH_read_missing d p t hp
+  simp [Obj.openAt, Obj.new, h]
+
+/-- **failed_open_then_write**: `TextFile tf(p, READ)` on a missing path (or an object of `q` on which `open(p, READ)`
+    failed), then `write(bs)`/`put`/`<<`: the write succeeds, `p` holds exactly `bs`, every other path — `q` included —
+    is untouched. -/
+theorem failed_open_then_write (d : Disk) (p q : Nat) (hp : d p = none) (bs : Bytes) :
+    let o := ((Obj.new q true).openAt d p .read).2.2
+    (o.twrite d .write bs).1 = true ∧ (o.twrite d .write bs).2.1 p = some bs ∧
+    ∀ r, r ≠ p → (o.twrite d .write bs).2.1 r = d r := by
+  simp only [failed_open_is_fresh d p q true hp]
+  have ho := openH_write d p true
+  simp only [Obj.twrite, Obj.lazyOpen, Obj.new, ho]
+  simp [fwrite, smWrite, overwrite, Disk.set]
+  intro r hr; simp [hr]
+
+-- not vacuous: the empty disk, p = 0, q = 1
+example : ((Obj.new 1 true).openAt (fun _ => none) 0 .read).2.2 = Obj.new 0 true := by
+  rw [failed_open_is_fresh _ 0 1 true rfl]
 
 /-- **history_read_back**: after *any* history of writers on a path, if the reference store says the file holds `c`,
     then a fresh `File(path)` returns `c` from `content()` (below 2 GiB), `c.length` from `size()`, `c.take n` from
